@@ -82,4 +82,59 @@ example : (doExchange .serial .none false [] 8 false [.data [0x01, 0x83, 0x02, 0
 /-- a genuine exception frame is still recognised -/
 example : asProtocolError .rtuNet (withCrc [0x0a, 0x81, 0x02]) = some (.excR 0x0a 1 2) := by decide +kernel
 
+/-! ### the statement in terms of what the transport delivered
+
+`receivedAfter k script [] n` is what the client has received after the first `n` reads of the script. Whatever a
+client hands to its caller - a response, or a device exception recognised by the read loop or by the parser - was
+decided on the bytes received at SOME read boundary, and those bytes end with the CRC of the others. Hence: if at no
+read boundary the received bytes are CRC-consistent (every corruption, truncation, extension and insertion of a valid
+reply that leaves the trailer inconsistent, however it is cut into reads), the call returns neither. -/
+
+theorem response_at_consistent_boundary (k : ClientKind) (hk : k.framing = .rtu) (fl : Flusher) (hooks : Bool)
+    (req : Bytes) (expected : Nat) (script : List Ev) (r : Resp) (t : Option UInt16)
+    (h : (doExchange k fl hooks req expected false script).1 = .ok r t) :
+    ∃ n, n ≤ script.length ∧ crcMatches (receivedAfter k script [] n) = true := by
+  obtain ⟨bs, log, hrl, hc⟩ := response_has_crc k hk fl hooks req expected script r t h
+  obtain ⟨n, hn, hbs⟩ := readLoop_frame_at k fl expected script [] [] bs log hrl
+  exact ⟨n, hn, by rw [← hbs]; exact hc⟩
+
+theorem loop_exception_at_consistent_boundary (k : ClientKind) (hk : k.framing = .rtu) (fl : Flusher)
+    (expected : Nat) (script : List Ev) (e : PErr) (log : List HookEv)
+    (h : readLoop k fl expected script [] [] = (.err (.exc e), log)) :
+    ∃ n, n ≤ script.length ∧ crcMatches (receivedAfter k script [] n) = true := by
+  obtain ⟨n, hn, hp⟩ := readLoop_exc_src_at k fl expected script [] [] e log h
+  exact ⟨n, hn, asProtocolError_rtu_crc k hk _ e hp⟩
+
+theorem parsed_exception_at_consistent_boundary (k : ClientKind) (hk : k.framing = .rtu) (fl : Flusher)
+    (hooks : Bool) (req : Bytes) (expected : Nat) (script : List Ev) (u fc c : UInt8)
+    (h : (doExchange k fl hooks req expected false script).1 = .err (.parse (.excR u fc c))) :
+    ∃ n, n ≤ script.length ∧ crcMatches (receivedAfter k script [] n) = true := by
+  obtain ⟨bs, log, hrl, hc⟩ := parsed_exception_has_crc k hk fl hooks req expected script u fc c h
+  obtain ⟨n, hn, hbs⟩ := readLoop_frame_at k fl expected script [] [] bs log hrl
+  exact ⟨n, hn, by rw [← hbs]; exact hc⟩
+
+/-- **C12**: bytes that are CRC-inconsistent at every read boundary are returned neither as a response nor as a
+device exception (by the read loop or by the parser) -/
+theorem corrupted_never_surfaces (k : ClientKind) (hk : k.framing = .rtu) (fl : Flusher) (hooks : Bool)
+    (req : Bytes) (expected : Nat) (script : List Ev)
+    (hbad : ∀ n, n ≤ script.length → crcMatches (receivedAfter k script [] n) = false) :
+    (∀ r t, (doExchange k fl hooks req expected false script).1 ≠ .ok r t) ∧
+    (∀ e log, readLoop k fl expected script [] [] ≠ (.err (.exc e), log)) ∧
+    (∀ u fc c, (doExchange k fl hooks req expected false script).1 ≠ .err (.parse (.excR u fc c))) := by
+  refine ⟨?_, ?_, ?_⟩
+  · intro r t h
+    obtain ⟨n, hn, hc⟩ := response_at_consistent_boundary k hk fl hooks req expected script r t h
+    rw [hbad n hn] at hc; cases hc
+  · intro e log h
+    obtain ⟨n, hn, hc⟩ := loop_exception_at_consistent_boundary k hk fl expected script e log h
+    rw [hbad n hn] at hc; cases hc
+  · intro u fc c h
+    obtain ⟨n, hn, hc⟩ := parsed_exception_at_consistent_boundary k hk fl hooks req expected script u fc c h
+    rw [hbad n hn] at hc; cases hc
+
+/-- the hypothesis is satisfiable: a reply with one flipped bit, delivered in two reads with a junk-free timeout between -/
+example : ∀ n, n ≤ 3 →
+    crcMatches (receivedAfter .serial [.data [0x01, 0x03, 0x02, 0x00], .timeout, .data [0x0b, 0xf8, 0x43]] [] n) = false := by
+  decide +kernel
+
 end Modbus.Properties.C12
